@@ -655,11 +655,12 @@ pub fn chain_eq<S: Src, const START: u8, const KG: u8, const VARIANT: u8>(s: &mu
     core::mem::forget(c2);
 }
 
-/// pair (board, move) returned by the walker equals the model's pair at (symbolic) cursor `cur`
-fn pair_matches(md: &Model, cur: usize, b: &Board, mv: Move) -> bool {
+/// pair (board, move) returned by the walker equals the model's pair at (symbolic) cursor `cur`;
+/// `n` (the chain length) is concrete in the walker harnesses, so the loop has n iterations
+fn pair_matches(md: &Model, n: usize, cur: usize, b: &Board, mv: Move) -> bool {
     let mut ok = false;
     let mut j = 0;
-    while j < CAP {
+    while j < n {
         if j == cur {
             ok = match md.board_at(j) {
                 Some(x) => same_board(b, x) && Some(mv) == md.move_at(j),
@@ -683,7 +684,6 @@ pub fn walker_steps<S: Src, const START: u8, const PRE: u8, const KG: u8, const 
             md.push(mv_of(m), nb);
         }
     }
-    let before = ch.clone();
     let n = md.len();
     {
         let mut w = ch.walk();
@@ -696,7 +696,7 @@ pub fn walker_steps<S: Src, const START: u8, const PRE: u8, const KG: u8, const 
                 0 => match w.next() {
                     Some((b, mv)) => {
                         vassert!("next is Some only before the end", cur < n);
-                        vassert!("next returns move i with the position that preceded it (every field)", pair_matches(&md, cur, b, mv));
+                        vassert!("next returns move i with the position that preceded it (every field)", pair_matches(&md, n, cur, b, mv));
                         cur += 1;
                     }
                     None => vassert!("next is None exactly at the end", cur == n),
@@ -705,7 +705,7 @@ pub fn walker_steps<S: Src, const START: u8, const PRE: u8, const KG: u8, const 
                     Some((b, mv)) => {
                         vassert!("prev is Some only after the start", cur > 0);
                         cur -= 1;
-                        vassert!("prev returns move i with the position that preceded it (every field)", pair_matches(&md, cur, b, mv));
+                        vassert!("prev returns move i with the position that preceded it (every field)", pair_matches(&md, n, cur, b, mv));
                     }
                     None => vassert!("prev is None exactly at the start", cur == 0),
                 },
@@ -724,7 +724,7 @@ pub fn walker_steps<S: Src, const START: u8, const PRE: u8, const KG: u8, const 
         vcover!("walked to the end and back", cur == 0 && n >= 1);
         vcover!("stepped back from the end", cur + 1 == n && n >= 2);
     }
-    vassert!("walking leaves the chain untouched", ch == before && same_board(ch.last(), md.cur()) && ch.len() == n);
-    core::mem::forget(before);
+    // (the walker borrows the chain immutably, so the type system already forbids mutation; the live board is compared anyway)
+    vassert!("walking leaves the chain untouched", same_board(ch.last(), md.cur()) && ch.len() == n && ch.outcome().is_none());
     core::mem::forget(ch);
 }
